@@ -56,6 +56,7 @@ FAMILY_FUNCTIONS = {
     'conv': ['ConversionTable::convert', 'TEMPERATURE_CONVERTER'],
     'si': ['SIPrefix::from_exp', 'SIPrefix::from_abbr', 'SIPrefix::name', 'SIPrefix::abbr', 'SIPrefix::exp', 'SIPrefix::iter'],
     'si2': ['SIPrefix::from_abbr'],
+    'm0': ['f64 ==, partial_cmp, / 1.0, * 1.0 (the M0 axioms of the amount shim, for the f64 back-end)'],
 }
 
 
